@@ -18,7 +18,11 @@ EXPLANATION = (
     "success; TSigResponseContext::sign MACs request MAC + response + TSIG variables for the Signed kind and leaves BadSig/BadKey "
     "unsigned; (Q1) the MAC input of TSIG::emit_tsig_for_mac is the RFC 8945 4.3.3 field sequence; (client side) DnsMultiplexer delivers "
     "a response unverified only when the request's STORED verifier is None, verifies with the stored (chained) verifier in place and "
-    "never moves it out or overwrites it while the request is active, and stores the verifier Message::finalize returned.")
+    "never moves it out or overwrites it while the request is active, and stores the verifier Message::finalize returned; (G5) "
+    "TSigVerifier::verify returns the parsed response only under MAC verified over the received bytes with the chained previous MAC, time "
+    "not older than the last accepted one and request time within the fudge window, advancing the chain state on that path only; (P2, "
+    "cont.) the copy of the reply that is MAC-ed is built like the reply that is sent: same builder inputs, same header constructor and "
+    "arguments, same rcode, no other header field set on one copy only.")
 NOT_DECIDED = "HMAC itself; that one flipped bit changes tbv (follows only for octets shown to be inputs); the order in which a multi-message reply arrives (the client verifies whatever arrives, in arrival order, with the stored chained verifier - G4)."
 ASSUMPTIONS = ["FULL feature configuration (sqlite + dnssec-ring)", "Range<u64>::contains semantics"]
 
